@@ -1,4 +1,5 @@
-"""Additional design-level evidence: TLAPS proofs about the abstract models (unbounded in keys, sizes and hash functions).
+"""Additional design-level evidence: TLAPS proofs about the abstract models (unbounded in keys, sizes and hash functions) and
+inductive invariants discharged by Apalache (unbounded in history length and amounts, every hash table of a small geometry).
 They say nothing about the code (the conformance engines bind the code); they are run in the thorough tier only and never
 produce a property verdict: a proof that does not go through is reported as a note."""
 import re
@@ -12,13 +13,45 @@ from .. import tlc
 
 ENGINE = "proofs"
 PROOFS = {"C01": ["BloomProof"]}
+# module, inductive invariant, the property it implies; the steps: Init => IndInv, IndInv /\ Next => IndInv', IndInv => property,
+# and a probe that must FAIL from IndInv (the invariant is not vacuous)
+INDUCTIVE = {"C02": [("CountMinInd", "IndInv", "Bounds")], "C08": [("CountingBloomInd", "IndInv", "Exact")]}
+
+
+def apalache(total, mod, ind, prop):
+    d = Path(tlc.new_scratch("apalache"))
+    shutil.copy(tlc.SPEC_DIR / f"{mod}.tla", d / f"{mod}.tla")
+    steps = [("init_implies_inv", ["--init=Init", f"--inv={ind}", "--length=0"], "NoError"), ("inv_is_inductive", [f"--init={ind}", f"--inv={ind}", "--length=1"], "NoError"),
+             ("inv_implies_property", [f"--init={ind}", f"--inv={prop}", "--length=0"], "NoError"), ("probe_fails_so_inv_not_vacuous", [f"--init={ind}", "--inv=Probe", "--length=1"], "Error")]
+    rec = {"module": mod, "inductive_invariant": ind, "implies": prop, "tool": "apalache-mc 0.58 (symbolic, SMT)", "steps": {}}
+    t0 = time.time()
+    try:
+        for name, args, want in steps:
+            out = subprocess.run(["apalache-mc", "check", *args, f"--out-dir={d}/out", f"{mod}.tla"], cwd=d, capture_output=True, text=True, timeout=900)
+            m = re.search(r"The outcome is: (\w+)", out.stdout + out.stderr)
+            got = m.group(1) if m else "unknown"
+            rec["steps"][name] = {"outcome": got, "as_expected": got == want}
+        rec["all_as_expected"] = all(v["as_expected"] for v in rec["steps"].values())
+        if not rec["all_as_expected"]:
+            total.notes.append(f"Apalache did not discharge every step of {mod} (extra evidence only): {rec['steps']}")
+    except Exception as exc:  # noqa
+        total.notes.append(f"Apalache run of {mod} failed: {exc!r} (extra evidence only)")
+    finally:
+        rec["wall_s"] = round(time.time() - t0, 1)
+        total.extra.setdefault("apalache", []).append(rec)
+        shutil.rmtree(d, ignore_errors=True)
 
 
 def run(focus, tier, seed):
     total = Tally(focus)
-    if tier != "thorough" or focus not in PROOFS or shutil.which("tlapm") is None:
+    if tier != "thorough":
         return total
-    for mod in PROOFS[focus]:
+    if shutil.which("apalache-mc") is not None:
+        for mod, ind, prop in INDUCTIVE.get(focus, []):
+            apalache(total, mod, ind, prop)
+    if shutil.which("tlapm") is None:
+        return total
+    for mod in PROOFS.get(focus, []):
         d = Path(tlc.new_scratch("tlaps"))
         shutil.copy(tlc.SPEC_DIR / f"{mod}.tla", d / f"{mod}.tla")
         t0 = time.time()
